@@ -20,6 +20,7 @@ import (
 
 	"github.com/alibaba/sentinel-golang/logging"
 	"github.com/alibaba/sentinel-golang/util"
+	"github.com/alibaba/sentinel-golang/util/vhook"
 	"github.com/pkg/errors"
 )
 
@@ -202,6 +203,7 @@ func (sc *SlotChain) Entry(ctx *EntryContext) *TokenResult {
 	}
 
 	// execute statistic slot
+	vhook.Yield(400)
 	ss := sc.stats
 	ruleCheckRet = ctx.RuleCheckResult
 	if len(ss) > 0 {
